@@ -18,7 +18,7 @@
 (* naming a scaffold that does not exist).                                                         *)
 (***************************************************************************************************)
 EXTENDS Rows, TLC, Json
-CONSTANTS TN, TD, MinTex, MaxEdits, MaxPieces, NRandom, Mode, MaxPerturb
+CONSTANTS TN, TD, MinTex, MaxEdits, MaxPieces, NRandom, Mode, MaxPerturb, NameStyle
 
 ErrLen == 1 + TN \div TD
 Margin == 3 * ErrLen
@@ -51,20 +51,27 @@ RandRow(i) == IF i % 2 = 1 THEN C(RandomElement({"+", "+", "-"}), RandomElement(
 \* (operators with a dummy parameter: TLC would evaluate a parameterless definition once and cache it)
 RandScaffold(x) == LET n == RandomElement({1, 2, 3}) IN [i \in 1..(2 * n - 1) |-> RandRow(i)]
 RandShape(x) == [s \in 1..RandomElement({1, 2, 3}) |-> RandScaffold(s)]
-Shapes == FixedShapes \cup {RandShape(x) : x \in 1..NRandom}
+\* shapes for the tagging scenarios (Mode = "tagged"): few, because the tag combinatorics is what is explored there
+TagShapes == {
+   << <<C("+", Big), C("g", 200), C("+", Mid)>>, <<C("+", Mid)>> >>,
+   << <<C("+", Big)>>, <<C("-", Mid), C("g", 1), C("+", Mid)>>, <<C("+", 2)>> >> }
+Shapes == (IF Mode = "tagged" THEN TagShapes ELSE FixedShapes) \cup {RandShape(x) : x \in 1..NRandom}
 
 ShapeLen(sh) == FoldLeft(LAMBDA a, r : a + r[2], 0, sh)
 \* concrete rows.  naming "fasta": contig name = scaffold name, contig coordinates = scaffold coordinates (as derived from a
 \* FASTA file); only for all-forward shapes with scaffold-type gaps.  naming "free": own contig names and offsets.
 IsFastaLike(shape) == \A s \in 1..Len(shape) : \A q \in 1..Len(shape[s]) : shape[s][q][1] \in {"+", "g"}
-ScName(s) == "S" \o ToString(s)
+\* NameStyle "plain": S1, S2, ... ; "hap": scaffolds alternate between two haplotypes, named as the haplotype-resolved assemblies
+\* are (the haplotype is the part before the first underscore, compared case-insensitively)
+ScName(s) == IF NameStyle = "hap" THEN (IF s % 2 = 1 THEN "HAP1_SCAFFOLD_" ELSE "hap2_scaffold_") \o ToString(s) ELSE "S" \o ToString(s)
+HapOf(s) == IF NameStyle = "hap" THEN (IF s % 2 = 1 THEN "hap1" ELSE "hap2") ELSE ""
 ConcreteRows(shape, s, naming) ==
   LET sh == shape[s] IN
   [q \in 1..Len(sh) |->
      LET before == ShapeLen(SubSeq(sh, 1, q - 1)) IN
      IF sh[q][1] \in {"g", "h"} THEN GapRow(IF sh[q][1] = "g" THEN "scaffold" ELSE "contig", sh[q][2])
      ELSE IF naming = "fasta" THEN Frag(ScName(s), before + 1, before + sh[q][2], 1)
-     ELSE Frag(ScName(s) \o "c" \o ToString(q), 3 * q + 1, 3 * q + sh[q][2], IF sh[q][1] = "+" THEN 1 ELSE -1)]
+     ELSE Frag(ScName(s) \o (IF NameStyle = "hap" THEN "_" ELSE "c") \o ToString(q), 3 * q + 1, 3 * q + sh[q][2], IF sh[q][1] = "+" THEN 1 ELSE -1)]
 Concrete(shape, naming) == [s \in 1..Len(shape) |-> [name |-> ScName(s), rows |-> ConcreteRows(shape, s, naming)]]
 
 \* ------------------------------------------------------------------ state
@@ -93,9 +100,12 @@ Bump == edits < MaxEdits /\ perturbs = 0 /\ edits' = edits + 1 /\ UNCHANGED <<sh
 Boundaries(s) == LET sh == shape[s] IN {ShapeLen(SubSeq(sh, 1, q)) : q \in 0..Len(sh)}
 Mids(s) == LET sh == shape[s] IN {ShapeLen(SubSeq(sh, 1, q - 1)) + (sh[q][2] \div 2) : q \in 1..Len(sh)}
 CutPoints(pc) == {k \in (pc.i + MinTex)..(pc.j - MinTex) :
-                    \/ k = pc.i + MinTex \/ k = pc.j - MinTex
-                    \/ \E c \in Boundaries(pc.src) : Abs(B(k) - c) <= Margin + 1
-                    \/ \E m \in Mids(pc.src) : B(k) <= m /\ m < B(k + 1)}
+                    IF Mode = "tagged"
+                    THEN \/ \E c \in Boundaries(pc.src) : B(k) <= c /\ c < B(k + 1)
+                         \/ \E m \in Mids(pc.src) : B(k) <= m /\ m < B(k + 1)
+                    ELSE \/ k = pc.i + MinTex \/ k = pc.j - MinTex
+                         \/ \E c \in Boundaries(pc.src) : Abs(B(k) - c) <= Margin + 1
+                         \/ \E m \in Mids(pc.src) : B(k) <= m /\ m < B(k + 1)}
 
 Cut(g, p, k) ==
   LET grp == map[g]  pc == grp.pieces[p]
@@ -105,20 +115,37 @@ Cut(g, p, k) ==
      /\ IF grp.painted \/ Len(grp.pieces) > 1
         THEN map' = [map EXCEPT ![g].pieces = SubSeq(grp.pieces, 1, p - 1) \o two \o SubSeq(grp.pieces, p + 1, Len(grp.pieces))]
         ELSE map' = SubSeq(map, 1, g - 1) \o <<[painted |-> FALSE, pieces |-> <<two[1]>>], [painted |-> FALSE, pieces |-> <<two[2]>>]>> \o SubSeq(map, g + 1, Len(map))
-Flip(g, p) == Bump /\ map' = [map EXCEPT ![g].pieces[p].rev = ~@]
+Flip(g, p) == Mode # "tagged" /\ Bump /\ map' = [map EXCEPT ![g].pieces[p].rev = ~@]
 MoveInto(g, p, h, q) ==
   /\ Bump /\ g # h
   /\ LET pc == map[g].pieces[p]
          m1 == [map EXCEPT ![h].pieces = InsertAtSeq(@, q, pc), ![g].pieces = RemoveAtSeq(@, p)]
      IN map' = SelectSeq(m1, LAMBDA x : Len(x.pieces) > 0)
-MoveWithin(g, p, q) == Bump /\ p # q /\ map' = [map EXCEPT ![g].pieces = InsertAtSeq(RemoveAtSeq(@, p), q, map[g].pieces[p])]
+MoveWithin(g, p, q) == Mode # "tagged" /\ Bump /\ p # q /\ map' = [map EXCEPT ![g].pieces = InsertAtSeq(RemoveAtSeq(@, p), q, map[g].pieces[p])]
 SplitOff(g, p) ==
-  /\ Bump /\ Len(map[g].pieces) > 1
+  /\ Mode # "tagged" /\ Bump /\ Len(map[g].pieces) > 1
   /\ map' = SubSeq(map, 1, g - 1) \o <<[map[g] EXCEPT !.pieces = RemoveAtSeq(@, p)], [painted |-> map[g].painted, pieces |-> <<map[g].pieces[p]>>]>>
             \o SubSeq(map, g + 1, Len(map))
-SwapGroups(g) == Bump /\ g < Len(map) /\ map' = [map EXCEPT ![g] = map[g + 1], ![g + 1] = map[g]]
+SwapGroups(g) == Mode # "tagged" /\ Bump /\ g < Len(map) /\ map' = [map EXCEPT ![g] = map[g + 1], ![g + 1] = map[g]]
 Paint(g) == Bump /\ map' = [map EXCEPT ![g].painted = ~@]
+\* tagging gestures (Mode = "tagged"): at most one of Haplotig / Contaminant / FalseDuplicate per piece, Target on any piece,
+\* a haplotype tag on the first piece of a painted scaffold whose source belongs to that haplotype
+RouteTags == {"Haplotig", "Contaminant", "FalseDuplicate"}
+HasAny(pc, S) == \E q \in 1..Len(pc.tags) : pc.tags[q] \in S
+TagRoute(g, p, tg) == /\ Mode = "tagged" /\ Bump /\ ~HasAny(map[g].pieces[p], RouteTags)
+                      /\ map' = [map EXCEPT ![g].pieces[p].tags = Append(@, tg)]
+TagTarget(g, p) == /\ Mode = "tagged" /\ Bump /\ ~HasAny(map[g].pieces[p], {"Target"})
+                   /\ \A q \in 1..Len(map[g].pieces) : ~HasAny(map[g].pieces[q], {"Target"})
+                   /\ map' = [map EXCEPT ![g].pieces[p].tags = Append(@, "Target")]
+HapSpellings(s) == IF s % 2 = 1 THEN {"HAP1", "Hap1"} ELSE {"hap2", "HAP2"}
+TagHap(g, sp) == /\ Mode = "tagged" /\ NameStyle = "hap" /\ Bump /\ map[g].painted
+                 /\ \A q \in 1..Len(map[g].pieces) : Len(map[g].pieces[q].tags) = 0 \/ HasAny(map[g].pieces[q], RouteTags \cup {"Target"})
+                 /\ \A q \in 1..Len(map[g].pieces) : ~HasAny(map[g].pieces[q], {"HAP1", "Hap1", "hap2", "HAP2"})
+                 /\ sp \in HapSpellings(map[g].pieces[1].src)
+                 /\ map' = [map EXCEPT ![g].pieces[1].tags = Append(@, sp)]
 Gesture == \E g \in 1..Len(map) :
+             \/ \E sp \in {"HAP1", "Hap1", "hap2", "HAP2"} : TagHap(g, sp)
+             \/ \E p \in 1..Len(map[g].pieces) : TagTarget(g, p) \/ \E tg \in RouteTags : TagRoute(g, p, tg)
              \/ Paint(g) \/ SwapGroups(g)
              \/ \E p \in 1..Len(map[g].pieces) :
                   \/ Flip(g, p) \/ SplitOff(g, p)
@@ -147,7 +174,7 @@ Spec == Init /\ [][Next]_pvars
 PieceOut(pc) == [src |-> IF pc.ghost THEN "Nowhere" ELSE ScName(pc.src), a |-> BaitA(pc), b |-> BaitB(pc), st |-> IF pc.rev THEN -1 ELSE 1, tags |-> pc.tags]
 MapOut == [g \in 1..Len(map) |-> [painted |-> IF map[g].painted THEN 1 ELSE 0, pieces |-> [p \in 1..Len(map[g].pieces) |-> PieceOut(map[g].pieces[p])]]]
 Scenario == [tn |-> TN, td |-> TD, naming |-> naming, input |-> Concrete(shape, naming), map |-> MapOut,
-             valid |-> IF perturbs = 0 THEN 1 ELSE 0, edits |-> edits, tex |-> tex]
+             valid |-> IF perturbs = 0 THEN 1 ELSE 0, edits |-> edits, tex |-> tex, style |-> NameStyle, haps |-> [s \in 1..Len(shape) |-> HapOf(s)]]
 Emit == PrintT(ToJson(Scenario))
 \* type/shape invariant of the model itself: pieces of valid maps tile every present source scaffold's texel range
 TilesOK == perturbs = 0 =>
